@@ -54,7 +54,7 @@ func ruleIntersectTable(rule string) func(*Ctx) {
 						if fr.name == "EvenOdd" {
 							atoms["ae1.windCount"], atoms["ae2.windCount"] = intVal(1), intVal(1)
 						}
-						ex := &explorer{c: c, f: f, atoms: atoms, maxPaths: 2000}
+						ex := &explorer{c: c, f: f, atoms: atoms, maxPaths: 2000, canon: canonParams(f, recv, "ae1", "ae2", "pt")}
 						outs := ex.explore(nil)
 						if len(outs) != 1 {
 							// the decision must be a function of these atoms alone
@@ -380,7 +380,7 @@ func ruleClosingDup(rule string) func(*Ctx) {
 				continue
 			}
 			n++
-			if !guardedBy(ifi, false, func(v ssa.Value) bool { return isParamNamed(v, "isOpen") }) {
+			if !guardedBy(ifi, false, func(v ssa.Value) bool { return v == ssa.Value(f.Params[2]) }) {
 				bad = "the closing-duplicate vertex is dropped without `!isOpen`: an open polyline whose last point equals its first loses its final segment"
 			}
 		}
@@ -396,7 +396,7 @@ func ruleLocalMaxOwner(rule string) func(*Ctx) {
 		f := c.fn("(clipperBase).addLocalMaxPoly")
 		recv := f.Params[0].Name()
 		ex := &explorer{c: c, f: f, atoms: map[string]absVal{recv + ".usingPolyTree": boolVal(true), "isJoined(ae1)": boolVal(false), "isJoined(ae2)": boolVal(false),
-			"getPrevHotEdge(ae1)": {k: aNil}}, maxPaths: 2000}
+			"getPrevHotEdge(ae1)": {k: aNil}}, maxPaths: 2000, canon: canonParams(f, recv, "ae1", "ae2", "pt")}
 		outs := ex.explore(nil)
 		bad := ""
 		n := 0
